@@ -43,8 +43,8 @@ C["C15"] = ("proof", "33 unbounded theorems: string comparison is the lexicograp
             "Key lookups after HashTable::Sort are proved in C13.")
 C["C16"] = ("proof", "PARTIAL. Proved on four ownership models, each for EVERY operation history: (1) the block heap of the sequence containers Array / String / StringStream (the C14 model): nothing dead is released or accessed, no block has two owners, every live block has an owner, destroying every object leaves no live block; (2) a heap model of Value trees (c16_value_ledger; assignment from an own member, merges by copy / move, removal, compress ...; the pre-D40 order is a use-after-free of the model); (3) nested Array<Node> whose elements own arrays of the same kind (c16_nested_ledger; the D52 class is Error UAF); (4) HashTable / HArray / HList storage, keys and values (c16_htab_ledger: resize moves without disposing, tombstones own nothing, merge by move disposes what it does not adopt). Tag records, expression lists and the parsers' failure paths have no heap in the models: for them, and as the tie of (1)-(4) to the code, the check is the runtime ledger through the library's own allocator seam (unknown/double release, block handed out twice, blocks live after every owner is gone) plus ASan/LSan, over the C12/C13/C14 histories, nested-array histories judged by the extracted model, valid and rejected JSON texts, well-formed and malformed templates and tag-cache lifetimes (copy, move, clear, reuse).",
             "Whether a destructor runs is decided by the C++ runtime; the theorems are about the ownership discipline of the modelled operations in the order of the code.")
-C["C17"] = ("proof", "PARTIAL. Proved on the model: a render only appends; any sequence of renders through one tag tree with different values and pre-filled streams equals the concatenation of fresh renders, each the documented expansion. Non-modification of value/text/cache and data-race freedom are runtime facts: tested per generated template (cache reused 3x, before/after comparison, ASan) and with 8/16 threads sharing one tag array under ThreadSanitizer.",
-            "Thread schedules are sampled, not enumerated.")
+C["C17"] = ("proof", "PARTIAL. Proved on the model: a render only appends; any sequence of renders through one tag tree with different values and pre-filled streams equals the concatenation of fresh renders, each the documented expansion; N threads sharing the text and the parsed tag list, each with its own value and stream, stepped one top-level tag at a time under ANY schedule (any order, repetitions, unfair): every thread only extends its own stream by a prefix of its fresh render, a finished thread holds exactly pre ++ fresh render (= the documented expansion for well-formed templates), all completing schedules agree, round robin completes. That the C++ never writes the shared value / text / tag array (the model has no way to), and interleavings finer than a tag, are runtime facts: tested per generated template (cache reused 3x, copied, copy-assigned and moved caches, before/after comparison of value and text, ASan) and with 8/16 threads sharing one tag array and one value under ThreadSanitizer.",
+            "Thread schedules of the C++ are sampled, not enumerated; the interleaving theorem is about the model at tag granularity.")
 C["C18"] = ("proof", "Proved (induction on the array): GroupBy on values equals the partition specification on documents -- one member per distinct textual value in first-appearance order, each the stable filter of the input with the key erased, wherever the key sits; source unchanged. Correspondence: Value::GroupBy tree and <loop group=> output on generated arrays incl. removed members.",
             "Number->text of numeric group names restricted to exact forms.")
 C["C19"] = ("proof", "Per-operation and history refinement of the BigInt word-array model to exact integers (value = sum word_i 2^(i w)) for all word widths and counts, no out-of-bounds access; double-word multiply generic in the half width; the 128/64 division helper as stated in the evidence (generic or finite sweep with the bound in the statement). Correspondence: operation sequences at 8/16/32/64-bit words, widths 64..2048.",
